@@ -104,6 +104,9 @@ def vectors(tier, rng):
     if tier == "thorough":
         out.append(("cellml2ode", "ToRORd_dynCl_mid.cellml", {}))
     out.append(("convert", "noble_1962.cellml", {"to": ".ode"}))
+    # a target that does not exist is an error, not a silent no-op
+    out.append(("convert", "lorenz", {"to": ".xyz", "expect_fail": True}))
+    out.append(("convert", "lorenz", {"outname": "out.xyz", "expect_fail": True}))
     # invalid / missing inputs: every command x every fault class
     for cmd in ("ode2py", "ode2c", "convert"):
         for k in INVALID:
@@ -203,8 +206,8 @@ def expected_output(cmd, model_path, o):
         fmt = (cfg.get("python") or {}).get("format", o.get("format", "black"))
         be = (cfg.get("python") or {}).get("backend", o.get("backend", "numpy"))
         if cmd == "convert":
-            # `convert` passes neither a format nor a backend on: the documented defaults of ode2py apply
-            fmt, be = "black", "numpy"
+            # `convert` has no format option (ode2py's default applies); its --jax flag selects the backend
+            fmt, be = "black", ("jax" if o.get("jax") else "numpy")
         code = gotran2py.get_code(ode, scheme=sch or ([] if cmd == "ode2py" else None), format=PF(fmt), remove_unused=bool(o.get("remove_unused")), stiff_states=stiff or ([] if cmd == "ode2py" else None), delta=delta, backend=gotran2py.Backend(be))
         return base + ".py", code
     to = (cfg.get("c") or {}).get("to", o.get("to", ".h"))
